@@ -154,6 +154,34 @@ def run(rep, pdb, tier):
             okr = okr and spawned and not reorder
             det = "handles pushed in spawn order=%s joined by iterating that Vec in order into one accumulator=%s" % (spawned, okr)
     rep.add("ordered-reduction", "handles are pushed in spawn order and joined by iterating that Vec in order into a single accumulator in the parent thread", okr, lp, det)
+    # ---- the value returned is that accumulator, untouched after the join loop (no snapping, scaling or clamping of the sum)
+    okv, detv = False, "reduction not recognised"
+    if okr:
+        scope_cl = [a for a in ancestors(joins[0]) if a.get("k") == "Closure"]
+        outer = scope_cl[-1] if scope_cl else None
+        tail = strip(outer["body"]).get("expr") if outer is not None and strip(outer["body"]).get("k") == "Block" else None
+        if jfold:
+            okv = tail is not None and strip(tail) is jfold[0]
+            detv = "the scope closure's value is the fold itself=%s" % okv
+        elif tail is not None:
+            acc = accs[0].target
+            tail_is_acc = ctx.term(tail) == acc and strip(tail).get("k") == "Local"
+            writes = [w for w in ctx.assigns.get(acc[1], [])]
+            stray = [w for w in writes if not any(a is jl[0] for a in ancestors(w))]
+            b_ = ctx.binds.get(acc[1])
+            init0 = b_ is not None and b_.init is not None and ctx.term(b_.init) == num(0)
+            okv = tail_is_acc and not stray and init0 and not ctx.mutations.get(acc, []) == None
+            detv = "scope value is the accumulator=%s starts at 0.0=%s writes outside the join loop=%d" % (tail_is_acc, init0, len(stray))
+        ftail = fn["body"].get("expr")
+        whole = ftail is not None and outer is not None and any(a is strip(ftail) for a in ancestors(outer))
+        okv = okv and whole
+        detv += "; the function's value is the scope call=%s" % whole
+    if okr:
+      rep.add("result-unmodified", "the function returns the joined sum itself: the accumulator starts at 0.0, is written only by the join loop, and nothing post-processes it "
+              "(an absolute `snap to zero` threshold turns every genuinely small dot product into 0.0)", okv, lp, detv)
+    # ---- the sequential reference the property compares with
+    from .c15 import check_dot
+    check_dot(rep, pdb, "reference/dot")
     rep.floor("partition/", 3)
     rep.assumptions += ["num_cpus::get() >= 1 (documented contract)", "std::thread::scope joins every spawned thread",
                         "(T-1)*floor(len/T) <= len (integer lemma used for slice validity, stated not proved)",
